@@ -167,6 +167,53 @@ def run(ctx):
         ctx.case((s["sde_type"], s["method"], s["noise"], Bsz, keep, str(s["perturb"]), str(s["perm"])),
                  sample=s, trace=True)
 
+    # ---- logqp=True: the KL increments of a row depend on that row only, also when the diffusions of the rows span
+    # many decades (a guarded division must not look at other rows); diagonal noise, every solver that accepts it
+    class KLRow(torch.nn.Module):
+        noise_type = "diagonal"
+
+        def __init__(self, sde_type):
+            super().__init__()
+            self.sde_type = sde_type
+
+        def f(self, t, y):
+            return -0.1 * y + 0.05
+
+        def h(self, t, y):
+            return torch.zeros_like(y)
+
+        def g(self, t, y):
+            return 10.0 ** (4.0 * torch.tanh(y) - 3.0)          # between 1e-7 and 10, row-wise
+
+    y_keep = torch.tensor([[-1.2, -1.25]], dtype=torch.float64)         # |g| about 4e-7
+    others_a = torch.tensor([[2.5, 2.4], [0.1, 0.3]], dtype=torch.float64)   # a row with |g| about 9
+    others_b = torch.tensor([[0.2, 0.1], [0.0, 0.5]], dtype=torch.float64)   # all |g| below 1
+    tsl = torch.tensor([0.0, 0.125, 0.25], dtype=torch.float64)
+    for method, sde_type in (("euler", "ito"), ("milstein", "ito"), ("srk", "ito"), ("midpoint", "stratonovich"),
+                             ("heun", "stratonovich"), ("reversible_heun", "stratonovich")):
+        key = dict(kind="logqp_rows", method=method, noise="diagonal", sde_type=sde_type)
+        try:
+            outs = []
+            for oth, src in ((others_a, [0, 1, 2]), (others_b, [0, 3, 4]), (others_a[[1, 0]], [0, 2, 1])):
+                base = torchsde.BrownianInterval(t0=0.0, t1=0.25, size=(5, 3), dtype=torch.float64, entropy=4242,
+                                                 levy_area_approximation=levy_for(method))
+                with warnings.catch_warnings():
+                    warnings.simplefilter("ignore")
+                    ys, lq = torchsde.sdeint(KLRow(sde_type), torch.cat([y_keep, oth]), tsl, bm=RowMap(base, src),
+                                             method=method, dt=2.0 ** -5, logqp=True)
+                outs.append((ys, lq))
+            (ya, la), (yb, lb), (yc, lc) = outs
+            if not (torch.equal(ya[:, 0], yb[:, 0]) and torch.equal(la[:, 0], lb[:, 0])):
+                ctx.violation(key, f"logqp=True: row 0 changed when the other rows (y0 and Brownian rows) were changed: "
+                                   f"KL increments {la[:, 0].tolist()} vs {lb[:, 0].tolist()}, max state diff "
+                                   f"{float((ya[:, 0] - yb[:, 0]).abs().max()):.3e}", replay=key)
+            if not (torch.equal(yc[:, [0, 2, 1]], ya) and torch.equal(lc[:, [0, 2, 1]], la)):
+                ctx.violation(dict(key, kind="logqp_rows_permutation"),
+                              "logqp=True: permuting rows does not permute the states / KL increments", replay=key)
+        except Exception as e:  # noqa: BLE001
+            ctx.violation(dict(key, kind="exception", exc=type(e).__name__), f"valid call raised {e}", replay=key)
+        ctx.case(("logqp_rows", method), sample=dict(key, rows="|g| from 4e-7 to 9"), trace=False)
+
     # ---- Brownian object: every element has its own noise element ---------------------------------
     cat = BR.catalogue(ctx.tier)
     combos = [(sn, lv) for sn in ("batch", "matrix") for lv in P.LEVIES]
